@@ -264,7 +264,13 @@ def gen_cfg(rng):
     fee = rng.choice([0, 0, 1, 30, 300, 300, 1000, 4999, 5000])
     sfee = rng.choice([0, 0, fee, fee // 2, min(fee, 50), rng.randint(0, fee)])
     adder = rng.choice([None, None, 1])
-    return dict(fee=fee, sfee=sfee, adder=adder,
+    # ext: a fee destination that wants the THIRD token through the trusted second pair is configured early, so the
+    # local-swap-then-external-swap fee path (fee.rs send_fee_slice) is exercised in about a third of the histories
+    ext = rng.random() < 0.35
+    if ext and sfee == 0:
+        fee = rng.choice([30, 300, 300, 1000, 5000])
+        sfee = rng.choice([fee, fee // 2, min(fee, 50), rng.randint(1, fee)])
+    return dict(fee=fee, sfee=sfee, adder=adder, ext=ext,
                 liq2=[log_amount(rng, 10 ** 20) + 2000, log_amount(rng, 10 ** 20) + 2000])
 
 
@@ -301,6 +307,10 @@ def gen_op(rng, w, stats):
         return ["SetState", OWNER, 1]
     if not sh['wl'] and rng.random() < 0.08:
         return ["WlAdd", OWNER, WL]
+    if w.cfg.get("ext") and not any(v == 3 for v in sh['dests'].values()) and sh['coll'] is None and rng.random() < 0.5:
+        return ["SetFeeOn", OWNER, True, rng.choice([60, 61, 62]), 3]
+    if w.cfg.get("ext") and any(v == 3 for v in sh['dests'].values()) and not sh['trusted']:
+        return ["Trust", OWNER, 1, 3]
     if not sh['dests'] and sh['coll'] is None and rng.random() < 0.12:
         if rng.random() < 0.6:
             return ["SetFeeOn", OWNER, True, rng.choice([60, 61, 62]), rng.choice([1, 2, 1, 2, 3])]
@@ -353,7 +363,13 @@ def gen_op(rng, w, stats):
         else:
             o1, o2 = a2 * r1 // r2, a2
         m = rng.random()
-        m1, m2 = (1, 1) if m < 0.7 else (max(1, o1 + rng.choice([-1, 0, 0, 0, 1])), max(1, o2 + rng.choice([-1, 0, 0, 0, 1])))
+        m1, m2 = (1, 1) if m < 0.6 else (max(1, o1 + rng.choice([-1, 0, 0, 0, 1])), max(1, o2 + rng.choice([-1, 0, 0, 0, 1])))
+        if 0.6 <= m < 0.72:
+            # a minimum strictly between the amount USED and the amount SENT on the side that has excess: must be refused
+            if a1 > o1:
+                m1 = rng.randint(o1 + 1, a1)
+            elif a2 > o2:
+                m2 = rng.randint(o2 + 1, a2)
         return ["Add", c, a1, a2, m1, m2]
     if roll < 0.50:
         who = rng.choice(users + [WL])
